@@ -393,8 +393,64 @@ pub fn t_mut_refs_to_scalars() -> String {
     show!((ids, cs.a, cs.b, first, second, n, v, flag, rows))
 }
 
+pub fn t_entry_api() -> String {
+    use std::collections::hash_map::Entry;
+    let mut m: HashMap<String, f64> = HashMap::new();
+    let mut log = Vec::new();
+    for (k, v) in [("a", 1.5), ("b", -2.0), ("a", 0.25), ("c", -0.0), ("b", 2.0)] {
+        match m.entry(k.to_string()) {
+            Entry::Occupied(mut slot) => {
+                *slot.get_mut() += v;
+                log.push(format!("occ {} {}", slot.key(), slot.get()));
+            }
+            Entry::Vacant(slot) => {
+                log.push(format!("vac {}", slot.key()));
+                slot.insert(v);
+            }
+        }
+    }
+    let mut b: HashMap<i32, Vec<i32>> = HashMap::new();
+    for x in [3, 1, 3, 2, 1, 3] {
+        match b.entry(x) {
+            Entry::Vacant(e) => {
+                e.insert(vec![x]);
+            }
+            Entry::Occupied(e) => e.into_mut().push(x * 10),
+        }
+    }
+    if let Entry::Occupied(e) = m.entry("b".to_string()) {
+        let old = e.remove();
+        log.push(format!("removed {}", old));
+    }
+    let mut counts: HashMap<&str, i32> = HashMap::new();
+    for w in ["x", "y", "x"] {
+        counts.entry(w).and_modify(|c| *c += 1).or_insert(1);
+    }
+    let mut price = -3.5f64;
+    {
+        let p = &mut price;
+        *p = p.max(0.0);
+    }
+    let mut other = 2.25f64;
+    let q = &mut other;
+    let r = q.min(1.0) + q.abs();
+    let mut keys: Vec<_> = m.iter().map(|(k, v)| (k.clone(), *v)).collect();
+    keys.sort_by(|a, b| a.0.cmp(&b.0));
+    let mut cs: Vec<_> = counts.into_iter().collect();
+    cs.sort();
+    let mut bv: Vec<_> = b.into_iter().collect();
+    bv.sort();
+    let w1: Option<f64> = None;
+    let w2: Option<f64> = Some(2.5);
+    let w3: Option<Vec<i32>> = None;
+    let w4: Result<i64, String> = Err("e".to_string());
+    let defaults = (w1.unwrap_or_default(), w2.unwrap_or_default(), w3.unwrap_or_default(), w4.unwrap_or_default(), None::<String>.unwrap_or_default(), None::<bool>.unwrap_or_default());
+    show!((log, keys, bv, cs, price, r, defaults))
+}
+
 pub fn all() -> Vec<(&'static str, String)> {
     vec![
+        ("t_entry_api", t_entry_api()),
         ("t_mut_refs_to_scalars", t_mut_refs_to_scalars()),
         ("t_fn_values_and_lazy", t_fn_values_and_lazy()),
         ("t_option_family", t_option_family()),
